@@ -502,6 +502,8 @@ def match_known(entry, violation, case):
         return False
     if 'ops_subseq' in m and not _subseq(m['ops_subseq'], kinds):
         return False
+    if 'ops_any' in m and not any(k in kinds for k in m['ops_any']):
+        return False
     if 'ops_exclude' in m and any(k in kinds for k in m['ops_exclude']):
         return False
     for k, v in m.get('config', {}).items():
